@@ -296,6 +296,24 @@ func registerThreads(e *Engine) {
 		ex.ts().maxPre = int(a[0].(Int).S64())
 		return nil
 	}
+	x["zzsym.NondetMapOrder"] = func(ex *Exec, c *frame, f *ssa.Function, a []Value) Value {
+		ex.side["nondetMapOrder"] = a[0].(bool)
+		return nil
+	}
+	// the CPU quota of the process: zzsym.SetCPUs(n) (a restart on another host)
+	// changes what runtime.GOMAXPROCS(0) / runtime.NumCPU() report; default 8
+	x["zzsym.SetCPUs"] = func(ex *Exec, c *frame, f *ssa.Function, a []Value) Value {
+		ex.side["cpus"] = a[0]
+		return nil
+	}
+	cpus := func(ex *Exec, c *frame, f *ssa.Function, a []Value) Value {
+		if v, ok := ex.side["cpus"].(Int); ok {
+			return v
+		}
+		return CInt(8, 64)
+	}
+	x["runtime.GOMAXPROCS"] = cpus
+	x["runtime.NumCPU"] = cpus
 	x["zzsym.Yield"] = func(ex *Exec, c *frame, f *ssa.Function, a []Value) Value {
 		ex.gate()
 		return nil
